@@ -4,6 +4,7 @@
   proposal checking, state loading).
 -/
 import GoatModel.World
+import GoatModel.Prepare
 import GoatModel.Load
 import GoatModel.App
 import GoatModel.Genesis
@@ -206,7 +207,11 @@ def step (d : D) (o : Op) : D × String :=
   | "a.det" => (d, "=> ok")
   -- the application's own PrepareProposal handler built a proposal from its mempool: it always answers (the proposal
   -- itself follows as an `a.process` operation); nothing is written
-  | "a.prepare" => (d, "=> ok")
+  | "a.prepare" =>
+    -- `got`: the number of transactions of the proposal it built (absent when the handler failed or hung): the block
+    -- message plus at most 15 selected ones (GoatModel.Prepare, C08P.prepared_size)
+    (d, if (o.get? "got").isNone || (decide (1 ≤ o.nat "got") && decide (o.nat "got" ≤ Prepare.maxTxLen)) then "=> ok"
+        else "=> err ;; proposal-size")
   | "a.export" =>
     -- does the locking + relayer state survive export → import (GoatModel.Genesis)?  Compared with the real
     -- application's verdict whenever that could be observed (`lrobs=1`)
